@@ -335,6 +335,11 @@ class Alg:
 
     def assign(self, stmt):
         """Substitute a single-definition local: name = expr, a, b = x, y ; name op= expr."""
+        if isinstance(stmt, ast.Assign) and len(stmt.targets) > 1 and all(isinstance(t, ast.Name) for t in stmt.targets):
+            v = self.ev(stmt.value)
+            for t in stmt.targets:
+                self.env[t.id] = v
+            return True
         if isinstance(stmt, ast.Assign) and len(stmt.targets) == 1:
             t = stmt.targets[0]
             if isinstance(t, ast.Name):
